@@ -166,15 +166,23 @@ func outcome(acc, pan bool) string {
 // ---- phase 1 ----------------------------------------------------------------
 
 func perturbPhase(t *T) {
-	n := t.Budget(50000)
+	n := t.Budget(80000)
 	all := gen.AllSECs()
 	cats := gen.AllCategories()
+	const chunk = 40000 // bounds the memory held by buffered results
+	for base := 0; base < n; base += chunk {
+		perturbChunk(t, base, min(chunk, n-base), all, cats)
+	}
+}
+
+func perturbChunk(t *T, base, n int, all, cats []string) {
 	rs := make([]*gen.Rand, n)
 	for i := range rs {
-		rs[i] = t.R.Fork(uint64(i))
+		rs[i] = t.R.Fork(uint64(base + i))
 	}
 	parallel(t, n, func(i int, t *sink) {
 		r := rs[i]
+		i += base
 		o := gen.Opts{MaxBatches: 3, MaxEntries: 4, Offset: i%5 == 0, PresetTraces: i%3 == 0, FullWidth: i%7 == 0}
 		switch i % 4 {
 		case 0: // one SEC at a time so that every SEC is perturbed often
